@@ -122,6 +122,10 @@ func memScenarios(depth int) []*engine.Scenario {
 	scs = append(scs, &engine.Scenario{
 		Name: "C11-big-tables", Cfgs: cfgs([]int{1, 128}, []int{0}, one, uMem), Filters: filters, Slots: 1,
 		Oracle: drv.Oracle{World: true, Lock: true}, Alphabet: bigAlpha, Depth: depth - 1,
+		// also from tables that already hold 70 / 65 rows of pointer-free and pointer-bearing components
+		Preludes: [][]model.Op{nil,
+			{{K: model.OpNewBatch, Path: model.PathMapN, Cs: ct.Of(ct.L), N: 70}},
+			{{K: model.OpNewBatch, Path: model.PathMapN, Cs: ct.Of(ct.S, ct.L), Ord: []ct.Comp{ct.L, ct.S}, N: 65, Init: model.InitFn, Fn: true}, {K: model.OpNewBatch, Path: model.PathMapN, Cs: ct.Of(ct.L), N: 66}}},
 	})
 	return scs
 }
